@@ -240,6 +240,19 @@ def check_complement(prog, rep, K):
     rep.saw(fp)
     a, p = _flag_form(prog, fa), _flag_form(prog, fp)
     construct = "%s.afixed/apoly" % K.qualname
+    # a frequency-form flag compares the FULL-PRECISION frequency: the requested output dtype is applied to the flag, never to the frequency
+    for fl, form in ((fa, a), (fp, p)):
+        if form is None or form[0] != "freq":
+            continue
+        for st in walk_no_nested(fl.node):
+            if isinstance(st, ast.Assign) and len(st.targets) == 1 and dump(st.targets[0]) == "afreq" and isinstance(st.value, ast.Call):
+                c = st.value
+                if dump(c.func) == "self.afreq" and (c.args or c.keywords):
+                    rep.violate("R4-complement", fl.qualname, "the flag compares %s: the frequency is cast to the requested OUTPUT dtype before the == 0 / == 1 tests, so with "
+                                "an integer or bool dtype every segregating frequency truncates to 0 (or 1) and the flag is no longer the complement of the other one"
+                                % dump(c), where(fl, st), "afreq = self.afreq()", dump(c))
+                elif dump(c.func) != "self.afreq":
+                    rep.unrec("R4-complement", fl.qualname, "frequency taken from %s" % dump(c)[:40])
     if a is None or p is None:
         rep.unrec("R4-complement", construct, "flag definitions not in a modelled form")
     elif a[1] == "fixed" and p[1] == "poly":
